@@ -46,6 +46,16 @@ RESULTS = {
     "C17-union-find-path-halving-returns-grandparent": ("C17", [("C17", "quick", "UNDECIDED", "first run: find was rewritten (iterative path halving): the anchors of the inserted Verus proof are gone, exit 2"),
                                                                 ("C17", "quick", "VIOLATION", "kani vk_uf (bounded twin over a SecondaryMap contract double, added because of this seed) harness::uf_same_set_is_closure_n3 / uf_find_is_canonical_n3 / uf_union_keeps_first_representative_n3 (7 violations, with replayed inputs); the Verus unit still reports undecided")]),
     "C17-subgraph-merge-window-excludes-start": ("C17", [("C17", "quick", "missed", "SubgraphMerge::try_merge is in the part of C17 the claim lists as NOT covered")]),
+    "C02-map-union-merge-flag-lost-at-staging-flush": ("C02", [("C02", "quick", "UNDECIDED", "the patched merge contains an 8-slot staging loop: the map-merge harnesses hit their unwinding assertion (unwind 8) -> exit 2; the defect needs >= 8 new keys in one merge, beyond the harness bound of 2 entries")]),
+    "C02-withtop-merge-inner-top-absorbs": ("C02", [("C02", "quick", "VIOLATION", "kani vk_lat twins withtop_max / withbot_withtop / pair_bt ::changed clause C02:changed_iff_other_not_below (5 violations); the Verus unit lat_wrap no longer matches the impl header (added Inner: IsTop bound)")]),
+    "C03-set-union-cmp-greater-arm-checks-other-against-itself": ("C03", [("C03", "quick", "VIOLATION", "kani vk_lat coll::set_cmp_* (array_option, array_vecset1, tiny_singleton, ...) clause C03:set_union_partial_cmp_is_subset_order (5 violations)")]),
+    "C03-option-map-get-ignores-key": ("C03", [("C03", "quick", "VIOLATION", "kani vk_lat coll::map_cmp_small_option_option / _option_singleton / _singleton_option clause C03:map_union_partial_cmp_is_keywise_order_bottoms_invisible (the cheap cross-representation MapUnion comparisons added to the quick tier a few hours earlier)")]),
+    "C04-dompair-incomparable-keys-value-replaced": ("C04", [("C04", "quick", "VIOLATION", "kani vk_lat twins::dompair_incomparable_keys clause C04:dompair_incomparable_keys_merges_values")]),
+    "C09-right-distributes-checks-the-left-law": ("C09", [("C09", "quick", "VIOLATION", "kani vk_lat alg::n2::distributes_ clause C09:right_distributes_ok_iff_law")]),
+    "C09-field-nonzero-inverse-zero-one-swapped": ("C09", [("C09", "quick", "VIOLATION", "verus alg_compose `field` postcondition (Ok <==> commutative_ring_laws && nonzero_inverse_law(items, g, one, zero, inverse_g)); kani alg::c2 composite")]),
+    "C09-cost-mul-zero-fast-path-breaks-identity": ("C09", [("C09", "quick", "VIOLATION", "verus alg_semiring `impl Multiplication<Cost> for Cost::mul` clause final(self).m() == Self::times(old(self).m(), other.m())")]),
+    "C36-top-level-order-hook-item-lost-on-hold-back": ("C36", [("C36", "quick", "VIOLATION", "kani vk_sim sim::runtime::harness::top_level_order_n1 / _n2 clause C36:decision_conserves_item_count")]),
+    "C36-run-hooks-trivial-manual-decision-counts-as-progress": ("C36", [("C36", "quick", "not reported", "the changed branch only runs when a hook enters run_hooks with a pre-existing TRIVIAL decision; no code in this tree creates one (every decision is made and consumed inside one run_hooks call), so no reachable history violates the property -- the harness's liveness clause excludes exactly that start state (DESIGN.md 14.1), and the sub-agent's own demo had to pre-set `to_release` by hand")]),
     "C10-counted-hash-set-eq-ignores-counts": ("C10", [("C10", "quick", "missed", "first rounds: VariadicCountedHashSet is hashbrown-backed, outside CBMC's reach beyond one tuple; quick still misses it (the equality harness takes 5-9 min)"),
                                                        ("C10", "thorough", "VIOLATION", "kani vk_var (variadic_collections.rs extracted over a hashbrown contract double, added later) extracted::hash_harness::slow_counted_set_eq_is_multiset_equality clause C10:counted_set_equality_is_multiset_equality")]),
 }
